@@ -9,8 +9,12 @@ import (
 	"fmt"
 	"io"
 	"math/big"
+	"runtime"
+	"runtime/debug"
 	"strconv"
 	"strings"
+	"sync"
+	"sync/atomic"
 )
 
 type c10elt[E any] interface {
@@ -22,7 +26,7 @@ type c10elt[E any] interface {
 }
 
 // closures written once per field (c10_fields.go)
-type c10pkg[E any, P c10elt[E], D any] struct {
+type c10pkg[E comparable, P c10elt[E], D any] struct {
 	name      string
 	modulus   *big.Int
 	bytes     int
@@ -53,7 +57,7 @@ type c10field interface {
 	Omega(logn int) *big.Int
 	Transform(kind string, c c10cfg, v []*big.Int) []*big.Int
 	BitRev(v []*big.Int) []*big.Int
-	BitRevBig(logn int, mult uint64) uint64
+	BitRevBig(logn int, mult uint64) (uint64, bool)
 	DomainInfo(m uint64, shift *big.Int) []*big.Int
 	ReadFrom(chunk int, c c10cfg, v []*big.Int) string
 	WriteBytes(c c10cfg) []byte
@@ -127,19 +131,60 @@ func (p *c10pkg[E, P, D]) BitRev(v []*big.Int) []*big.Int {
 	p.bitrev(a)
 	return p.unvec(a)
 }
-func (p *c10pkg[E, P, D]) BitRevBig(logn int, mult uint64) uint64 {
+// v[i] = (i·mult + 1) mod q; returns Σ (i+1)·BitReverse(v)[i] mod 2^61−1 (no uint64 overflow: mult·2^(2·logn) < 2^62 is checked by
+// the executor) and whether a second BitReverse restores v exactly (involution; Go side only, the model answers 1)
+func (p *c10pkg[E, P, D]) BitRevBig(logn int, mult uint64) (uint64, bool) {
 	n := uint64(1) << logn
 	a := make([]E, n)
-	for i := uint64(0); i < n; i++ {
-		P(&a[i]).SetUint64(i*mult + 1)
-	}
-	p.bitrev(a)
 	const m61 = (uint64(1) << 61) - 1
-	acc := uint64(0)
-	for i := uint64(0); i < n; i++ {
-		acc = (acc + (i+1)*P(&a[i]).Uint64()) % m61
+	// the harness' own loops (fill / digest / compare) run on up to 8 workers; BitReverse itself is called as is
+	workers := uint64(min(8, runtime.NumCPU()))
+	if n < 1<<16 {
+		workers = 1
 	}
-	return acc
+	each := func(f func(lo, hi uint64)) {
+		var wg sync.WaitGroup
+		for w := uint64(0); w < workers; w++ {
+			wg.Add(1)
+			go func(lo, hi uint64) { defer wg.Done(); f(lo, hi) }(w*n/workers, (w+1)*n/workers)
+		}
+		wg.Wait()
+	}
+	each(func(lo, hi uint64) {
+		for i := lo; i < hi; i++ {
+			P(&a[i]).SetUint64(i*mult + 1)
+		}
+	})
+	p.bitrev(a)
+	var acc, bad atomic.Uint64
+	each(func(lo, hi uint64) {
+		s := uint64(0)
+		for i := lo; i < hi; i++ {
+			s = (s + (i+1)*P(&a[i]).Uint64()) % m61
+		}
+		for { // acc = (acc + s) mod m61
+			old := acc.Load()
+			if acc.CompareAndSwap(old, (old+s)%m61) {
+				break
+			}
+		}
+	})
+	p.bitrev(a)
+	each(func(lo, hi uint64) {
+		var e E
+		for i := lo; i < hi; i++ {
+			P(&e).SetUint64(i*mult + 1)
+			if a[i] != e {
+				bad.Add(1)
+				return
+			}
+		}
+	})
+	if logn >= 24 { // give the (up to 6 GB) vector back before the next op allocates its own
+		a = nil
+		debug.FreeOSMemory()
+	}
+	return acc.Load(), bad.Load() == 0
 }
 func (p *c10pkg[E, P, D]) DomainInfo(m uint64, shift *big.Int) []*big.Int {
 	var sh *E
@@ -358,10 +403,11 @@ func execC10(a []string) string {
 		f, ok := c10fields[a[1]]
 		logn, ok1 := c10hexInt(a[3])
 		mult, ok2 := c10hexInt(a[4])
-		if !ok || !ok1 || !ok2 || logn > 27 || mult >= 1<<16 || parseBig(a[2]).Cmp(f.Q()) != 0 {
+		if !ok || !ok1 || !ok2 || logn > 28 || mult < 1 || mult >= 1<<16 || uint64(mult)<<(2*logn) >= 1<<62 || parseBig(a[2]).Cmp(f.Q()) != 0 {
 			return "bad-op"
 		}
-		return strconv.FormatUint(f.BitRevBig(logn, uint64(mult)), 16)
+		dg, invol := f.BitRevBig(logn, uint64(mult))
+		return strconv.FormatUint(dg, 16) + " " + boolStr(invol)
 	case "domain": // <field> <q> <root> <s> <mulgen> <custom> <m>
 		if len(a) != 8 {
 			return "bad-op"
@@ -619,14 +665,44 @@ func genC10(g *gen) {
 		}
 		g.emit("C10 read %s %s %x %x -", name, hexBig(q), nb, 8)
 	}
-	// (f) cache-oblivious bit reversal variants (2^21 …): digest only
-	if g.thorough() {
-		for _, t := range []struct {
-			f    string
-			logn int
-		}{{"koalabear", 21}, {"koalabear", 22}, {"koalabear", 23}, {"bn254", 21}} {
-			f := c10fields[t.f]
-			g.emit("C10 bitrevbig %s %s %x %x", t.f, hexBig(f.Q()), t.logn, 1+g.rng.intn(1<<16-1))
+	// (f) every bit-reversal routine of every package, by streaming digest + involution (bitreverse.go):
+	//   koalabear, babybear: bitReverseNaive at every size (the only routine);
+	//   goldilocks and the 7 ecc/*/fr/fft (one template, amd64): len < 2^21 naive (also (c)), len = 2^k, k = 21…27: the unrolled
+	//   bitReverseCobraInPlace_9_k, len > 2^27: the generic bitReverseCobraInPlace (arm64: naive everywhere).
+	//   quick: _9_21 of all 8 packages, _9_22…_9_25 of goldilocks (8-byte elements), one further size per ecc package in turn;
+	//   thorough: all 7 unrolled routines of all 8 packages, the generic one at 2^28 for goldilocks (2 GB; 8–12 GB for the others: left out)
+	brBig := func(name string, logn int) {
+		maxMult := 1 << 16
+		if 62-2*logn < 16 {
+			maxMult = 1 << (62 - 2*logn)
+		}
+		g.emit("C10 bitrevbig %s %s %x %x", name, hexBig(c10fields[name].Q()), logn, 1+g.rng.intn(maxMult-1))
+	}
+	naiveOnly := map[string]bool{"koalabear": true, "babybear": true}
+	k := 0
+	for _, name := range c10order {
+		switch {
+		case naiveOnly[name]:
+			brBig(name, 21)
+			if g.thorough() {
+				brBig(name, 24)
+				brBig(name, 27)
+			}
+		case g.thorough():
+			for logn := 21; logn <= 27; logn++ {
+				brBig(name, logn)
+			}
+			if name == "goldilocks" {
+				brBig(name, 28)
+			}
+		case name == "goldilocks":
+			for logn := 21; logn <= 25; logn++ {
+				brBig(name, logn)
+			}
+		default:
+			brBig(name, 21)
+			brBig(name, 22+(k+g.rng.intn(3))%3)
+			k++
 		}
 	}
 	// (g) malformed lines
